@@ -428,10 +428,10 @@ func labels(cs []call) []string {
 }
 
 // top-level Handle patterns
-var topPats = []xml.Name{nA, nC, {Local: "a"}, {Space: "n1"}, {Space: "n2"}, {Local: "b"}, {Space: ns}}
+var topPats = []xml.Name{nA, nC, {Local: "a"}, {Space: "n1"}, {Space: "n2"}, {Local: "b"}, {Space: ns}, {}} // the empty name: the namespace-only pattern of elements in no namespace, not a catch-all
 var topIn = []xml.Name{nA, nB, nC, nD, {Space: "n2", Local: "b"}, {Space: "n3", Local: "a"}, {Space: "n1", Local: "message"}, {Space: ns, Local: "message"}, {Space: ns, Local: "presence"}, {Space: ns, Local: "a"},
 	// named like stanzas, but not in the namespace the mux was created with: not stanzas of this mux
-	{Space: "n1", Local: "iq"}, {Space: stanza.NSServer, Local: "iq"}, {Space: stanza.NSServer, Local: "message"}, {Space: "n3", Local: "presence"}}
+	{Space: "n1", Local: "iq"}, {Space: stanza.NSServer, Local: "iq"}, {Space: stanza.NSServer, Local: "message"}, {Space: "n3", Local: "presence"}, {Local: "q"}}
 
 func topBody(c *nd.Ctx) nd.Result {
 	reg := map[xml.Name]bool{}
@@ -508,7 +508,7 @@ func topBody(c *nd.Ctx) nd.Result {
 // registration laws
 func regBody(c *nd.Ctx) nd.Result {
 	kind := c.Choose(4, "kind")
-	how := c.Choose(4, "how") // 0 duplicate, 1 nil interface, 2 nil func, 3 duplicate via Func
+	how := c.Choose(5, "how") // 0 duplicate, 1 nil interface, 2 nil func, 3 duplicate via Func, 4 two distinct patterns (legal in either order)
 	p := payloadPats[c.Choose(len(payloadPats), "pattern")]
 	names := []string{"IQ", "Message", "Presence", "Handle"}
 	c.Note("register %s pattern %v case %d", names[kind], p, how)
@@ -519,6 +519,35 @@ func regBody(c *nd.Ctx) nd.Result {
 	okIQ := mux.IQHandlerFunc(func(stanza.IQ, xmlstream.TokenReadEncoder, *xml.StartElement) error { return nil })
 	okMsg := mux.MessageHandlerFunc(func(stanza.Message, xmlstream.TokenReadEncoder) error { return nil })
 	okPres := mux.PresenceHandlerFunc(func(stanza.Presence, xmlstream.TokenReadEncoder) error { return nil })
+	if how == 4 {
+		// every set of distinct patterns is legal, whatever order they are
+		// registered in (a wildcard before or after the patterns it covers)
+		for _, q := range payloadPats {
+			if kind == 3 && q == (xml.Name{}) {
+				q = xml.Name{Local: "y"}
+			}
+			if q == p {
+				continue
+			}
+			var two []mux.Option
+			switch kind {
+			case 0:
+				two = []mux.Option{mux.IQ("get", p, okIQ), mux.IQ("get", q, okIQ)}
+			case 1:
+				two = []mux.Option{mux.Message("chat", p, okMsg), mux.Message("chat", q, okMsg)}
+			case 2:
+				two = []mux.Option{mux.Presence("", p, okPres), mux.Presence("", q, okPres)}
+			case 3:
+				okH := func(t xmlstream.TokenReadEncoder, start *xml.StartElement) error { return nil }
+				two = []mux.Option{mux.HandleFunc(p, okH), mux.HandleFunc(q, okH)}
+			}
+			if pn := nd.Catch(func() { mux.New(ns, two...) }); pn != nil {
+				res.Violation = &nd.Violation{Sig: "register:distinct-patterns-refused", Msg: fmt.Sprintf("mux.New refused %s patterns %v then %v: %s", names[kind], p, q, pn.Value)}
+				return res
+			}
+		}
+		return res
+	}
 	var opts []mux.Option
 	switch kind {
 	case 0:
